@@ -99,6 +99,9 @@ func Harness_Ready(n int, dealer int, layout int, street int) {
 		// C05: closes at once only when nobody can move
 		vAssert(pre.movable == 0, "C05.closes-at-once-only-when-nobody-can-move")
 		vhUnchangedAccounts(pre, gs, "C01.ready-moves-no-chips")
+		for _, p := range gs.Players {
+			vAssert(!p.Acted && len(p.AllowedActions) == 0, "C05.inv-closed-round-has-cleared-turn-flags")
+		}
 		vhPotsTotal(gs, "@ready-closed")
 		vCover("ready.closes-at-once")
 	}
@@ -192,6 +195,7 @@ func Harness_Next(n int, dealer int, layout int, street int) {
 		vAssert(movable <= 1, "C05.street-skipped-only-when-fewer-than-two-can-bet")
 		for _, p := range gs.Players {
 			vAssert(len(p.AllowedActions) == 0, "C04.nobody-offered-actions-on-skipped-street")
+			vAssert(!p.Acted, "C05.inv-closed-round-has-cleared-turn-flags")
 		}
 		vhPotsTotal(gs, "@skipped")
 		vCover("next.run-out")
